@@ -93,6 +93,27 @@ class EditRunner(G.Runner):
         super().__init__()
         self.hook_calls = []
         self.hook_pattern = {}      # hook id -> pattern it was installed for
+        self.spec = None            # Spec() kept next to the router (set by track_spec)
+        self.outside = False
+
+    def track_spec(self):
+        self.spec = Spec()
+        return self
+
+    def _spec(self, fn):
+        if self.spec is None or self.outside:
+            return
+        try:
+            fn(self.spec)
+        except Outside:
+            self.outside = True
+
+    def add(self, rule, methods, name=None, overwrite=False):
+        idx = len(self.ops)
+        ans = super().add(rule, methods, name, overwrite)
+        out = 'ok' if ans.startswith('ok') else ans[4:]
+        self._spec(lambda sp: sp.add(rule, methods, name, overwrite, idx, out))
+        return ans
 
     # -- helpers ------------------------------------------------------------------------
     def _cerr(self, rule):
@@ -140,10 +161,14 @@ class EditRunner(G.Runner):
     # -- edits --------------------------------------------------------------------------
     def remove_rule(self, rule):
         cerr = self._cerr(rule)
-        return self._emit('X|%s|%s' % (hs(rule), cerr), self._outcome(lambda: self.router.remove(rule)))
+        ans = self._emit('X|%s|%s' % (hs(rule), cerr), self._outcome(lambda: self.router.remove(rule)))
+        self._spec(lambda sp: sp.remove_rule(rule, ans if ans == 'ok' else ans[4:]))
+        return ans
 
     def remove_name(self, name):
-        return self._emit('XN|%s' % hs(name), self._outcome(lambda: self.router.remove(name=name)))
+        ans = self._emit('XN|%s' % hs(name), self._outcome(lambda: self.router.remove(name=name)))
+        self._spec(lambda sp: sp.remove_name(name, ans if ans == 'ok' else ans[4:]))
+        return ans
 
     def add_hook(self, rule, partial):
         idx = len(self.ops)
@@ -157,11 +182,14 @@ class EditRunner(G.Runner):
             raise
         except Exception as e:
             ans = 'err:' + G.err_name(e)
+        self._spec(lambda sp: sp.add_hook(rule, partial, idx, 'ok' if ans.startswith('ok') else ans[4:]))
         return self._emit('H|%s|%d|%s' % (hs(rule), 1 if partial else 0, cerr), ans)
 
     def remove_hook(self, rule):
         cerr = self._cerr(rule)
-        return self._emit('XH|%s|%s' % (hs(rule), cerr), self._outcome(lambda: self.router.remove_hook(rule)))
+        ans = self._emit('XH|%s|%s' % (hs(rule), cerr), self._outcome(lambda: self.router.remove_hook(rule)))
+        self._spec(lambda sp: sp.remove_hook(rule, ans if ans == 'ok' else ans[4:]))
+        return ans
 
     # -- probes -------------------------------------------------------------------------
     def by_name(self, name):
@@ -227,6 +255,42 @@ class EditRunner(G.Runner):
             ans = 'status:%s:%r:%r' % (status, calls, hcalls)
         return self._emit('V|%s|%s|%s' % (hs(verb), hs(path), self._env_txt(env)), ans)
 
+    def fresh_same(self, paths, methods):
+        """compare this (edited) application with one rebuilt from the survivors; emitted only
+        where the comparison is fully specified (no unspecified hooks, inside the domain)"""
+        if self.spec is None or self.outside or self.spec.tainted:
+            return None
+        env = []
+        for p in paths:
+            env += [e for e in self.env_for(p.strip('/')) if e not in env]
+        try:
+            fresh = self.spec.rebuild()
+        except Exception as e:
+            return self._emit('FS|%s|%s|%s' % (hsl(paths), hsl(methods), self._env_txt(env)), 'diff:rebuild:' + type(e).__name__)
+        ans = 'same'
+
+        def norm(runner, p):
+            ep, err = core.with_timeout(lambda: runner.router.resolve(p, list(methods)))
+            if ep:
+                m, kw, hooks = ep
+                return 'hit:%d:%s:%s:%s' % (runner._hid_of(m.handler), hs(m.name), G.enc_kwargs(kw), self.show_hooks(hooks))
+            return '404' if err[0] == 404 else '405:' + hs(err[2])
+        for p in paths:
+            a, b = norm(self, p), norm(fresh, p)
+            if a != b:
+                ans = 'diff:path:%s:%s:%s' % (hs(p), a, b)
+                break
+        if ans == 'same':
+            for nm in self.router.named_routes:
+                a, b = self.show_route(self.router[nm]), fresh.show_route(fresh.router[nm])
+                if a != b:
+                    ans = 'diff:name:%s:%s:%s' % (hs(nm), a, b)
+                    break
+        if ans == 'same' and (sorted(self.router.routes) != sorted(fresh.router.routes)
+                              or sorted(self.router.named_routes) != sorted(fresh.router.named_routes)):
+            ans = 'diff:indexes'
+        return self._emit('FS|%s|%s|%s' % (hsl(paths), hsl(methods), self._env_txt(env)), ans)
+
     def line(self):
         return 'redit hist ' + ' '.join(self.ops)
 
@@ -259,6 +323,8 @@ def play(run, ops):
             run.serve(op[1], op[2])
         elif k == 'G':
             run.get(op[1])
+        elif k == 'FS':
+            run.fresh_same(op[1], op[2])
         else:
             raise core.Infra('unknown op %r' % (op,))
 
@@ -355,6 +421,8 @@ def gen_history(rng, max_edits=40, kind=None):
         if rng.random() < .25:
             ops += gen_probes(rng, U, edits, False)
     ops += gen_probes(rng, U, edits, True)
+    paths = [op[1] for op in ops if op[0] == 'P'] + [op[2] for op in ops if op[0] == 'V']
+    ops.append(['FS', sorted(set(paths))[:12], rng.choice([['GET', 'ANY'], ['POST', 'ANY']])])
     return ops, U
 
 
